@@ -54,6 +54,9 @@ type inhGen struct {
 	nblk   int
 	levels int
 	stats  map[string]bool
+	// nestedAt[b] = level at which a block n<b> was introduced inside an override of b<b>
+	// (0 = not introduced); more derived templates may then override n<b> as well
+	nestedAt map[int]int
 }
 
 func (g *inhGen) pick(n int, l string) int { return rapid.IntRange(0, n-1).Draw(g.t, l) }
@@ -71,11 +74,21 @@ func bname(i int) string { return fmt.Sprintf("b%d", i) }
 // exists further up the chain, so parent() is meaningful.
 func (g *inhGen) blockBody(level, b int, mayParent bool, inLoop bool) []*S {
 	tag := fmt.Sprintf("<%d.%d>", level, b)
-	form := g.pick(8, "blockform")
+	form := g.pick(9, "blockform")
 	if !mayParent && form >= 4 {
 		form = g.pick(3, "blockform2")
 	}
+	if form == 8 && (g.nestedAt[b] != 0 || level == 0) {
+		form = 4
+	}
 	switch form {
+	case 8:
+		// the override introduces a block of its own, which templates further down the chain
+		// may override in turn
+		g.nestedAt[b] = level
+		g.stats["override-introduces-a-block"] = true
+		g.stats["parent()"] = true
+		return []*S{Text(tag + "("), {K: "block", Name: fmt.Sprintf("n%d", b), Body: []*S{Text(fmt.Sprintf("<n%d@%d>", b, level))}}, Text(")"), {K: "parent"}}
 	case 0:
 		g.stats["empty-override"] = g.stats["empty-override"] || level < g.levels-1
 		return nil
@@ -107,7 +120,7 @@ func (g *inhGen) blockBody(level, b int, mayParent bool, inLoop bool) []*S {
 }
 
 func genInheritance(t *rapid.T) (SetCase, map[string]bool) {
-	g := &inhGen{t: t, stats: map[string]bool{}}
+	g := &inhGen{t: t, stats: map[string]bool{}, nestedAt: map[int]int{}}
 	g.levels = rapid.IntRange(1, 5).Draw(t, "levels")
 	g.nblk = rapid.IntRange(1, 4).Draw(t, "nblocks")
 	ctx := Ctx{}
@@ -161,6 +174,15 @@ func genInheritance(t *rapid.T) (SetCase, map[string]bool) {
 		tm := &Tmpl{Name: tname(level), Extends: ext}
 		tm.Body = append(tm.Body, Text("junk-before"))
 		for b := 0; b < g.nblk; b++ {
+			if at := g.nestedAt[b]; at > level && g.pick(2, "overnested") == 0 {
+				// override of the block that a less derived override introduced
+				g.stats["overrides-introduced-block"] = true
+				nb := []*S{Text(fmt.Sprintf("<n%d!%d>", b, level))}
+				if g.pick(2, "nestedparent") == 0 {
+					nb = append(nb, &S{K: "parent"})
+				}
+				tm.Body = append(tm.Body, &S{K: "block", Name: fmt.Sprintf("n%d", b), Body: nb})
+			}
 			if g.pick(3, "omit") == 0 {
 				g.stats["omitted-at-some-level"] = true
 				continue
@@ -195,7 +217,7 @@ func genInheritance(t *rapid.T) (SetCase, map[string]bool) {
 	return sc, g.stats
 }
 
-const c10Rule = "extends chains of 1-5 templates over 1-4 blocks placed at top level, inside a loop, inside a conditional or inside another block of the base layout; every level independently omits, overrides with text/prints/conditionals, overrides with an empty body, or overrides and calls parent() (before, after, twice, inside an if); parent names static or dynamic (variable, concatenation, conditional); children carry text and comments outside blocks; non-trivial = chain length >= 3, or an empty override, or parent(), or a block inside a loop/conditional/other block; distinct by source set"
+const c10Rule = "extends chains of 1-5 templates over 1-4 blocks placed at top level, inside a loop, inside a conditional or inside another block of the base layout; every level independently omits, overrides with text/prints/conditionals, overrides with an empty body, or overrides and calls parent() (before, after, twice, inside an if), or introduces a new block inside its override which more derived templates override in turn; parent names static or dynamic (variable, concatenation, conditional); children carry text and comments outside blocks; non-trivial = chain length >= 3, or an empty override, or parent(), or a block inside a loop/conditional/other block; distinct by source set"
 
 func TestC10Inheritance(t *testing.T) {
 	r := NewRec(t, "C10", c10Rule)
@@ -221,12 +243,9 @@ func TestC10Inheritance(t *testing.T) {
 	})
 }
 
-// TestC10Grid enumerates all assignments of {omit, text, empty, parent()} to the levels of
-// chains of length 1..4 over two blocks (one at top level, one inside a loop).
-func TestC10Grid(t *testing.T) {
-	r := NewRec(t, "C10", "exhaustive: chains of length 2..4; for block b0 (top level) every assignment of {omit, text, empty, text+parent()} to every child level, combined with three assignments for block b1 (inside a loop of the base): omitted everywhere / text at the most derived level / parent() at every level; all cases non-trivial")
-	defer r.Flush()
-	r.SetExhaustive()
+// forEachC10Grid enumerates all assignments of {omit, text, empty, parent()} to the levels of
+// chains of length 2..4 over two blocks (one at top level, one inside a loop).
+func forEachC10Grid(f func(key string, sc SetCase)) {
 	ctx := Ctx{}
 	ctx.Set("xs", List(Int(1), Int(2)))
 	forms := []string{"omit", "text", "empty", "parent"}
@@ -255,10 +274,10 @@ func TestC10Grid(t *testing.T) {
 				set := TSet{base}
 				c := code
 				for level := n - 2; level >= 0; level-- {
-					f := forms[c%len(forms)]
+					fm := forms[c%len(forms)]
 					c /= len(forms)
 					tm := &Tmpl{Name: tname(level), Extends: Str(tname(level + 1)), Body: []*S{Text("junk")}}
-					if d := def(level, 0, f); d != nil {
+					if d := def(level, 0, fm); d != nil {
 						tm.Body = append(tm.Body, d)
 					}
 					switch b1mode {
@@ -271,14 +290,23 @@ func TestC10Grid(t *testing.T) {
 					}
 					set = append(set, tm)
 				}
-				sc := SetCase{Ctx: ctx, Set: set, Main: "main"}
-				r.Case(fmt.Sprint(n, code, b1mode), true, set.Sources(SPrint{})["main"], fmt.Sprintf("chain:%d", n))
-				if err := checkSetCase(sc); err != nil {
-					r.FailEnum(t, "C10.inherit", sc, err)
-				}
+				f(fmt.Sprint(n, code, b1mode), SetCase{Ctx: ctx, Set: set, Main: "main"})
 			}
 		}
 	}
+}
+
+func TestC10Grid(t *testing.T) {
+	r := NewRec(t, "C10", "exhaustive: chains of length 2..4; for block b0 (top level) every assignment of {omit, text, empty, text+parent()} to every child level, combined with three assignments for block b1 (inside a loop of the base): omitted everywhere / text at the most derived level / parent() at every level; all cases non-trivial")
+	defer r.Flush()
+	r.SetExhaustive()
+	forEachC10Grid(func(key string, sc SetCase) {
+		n := len(sc.Set)
+		r.Case(key, true, sc.Set.Sources(SPrint{})["main"], fmt.Sprintf("chain:%d", n))
+		if err := checkSetCase(sc); err != nil {
+			r.FailEnum(t, "C10.inherit", sc, err)
+		}
+	})
 }
 
 func init() { reg("C10.inherit", checkSetCase) }
